@@ -27,7 +27,7 @@ TRUSTED = [
     "union is compared at record-identity level when the exact comparison fails (two buckets may keep different key objects of one identity)",
     "ServiceInfo construction/validation (service_type_name) and ipaddress parsing are driven, not modelled; interface_index (None or 3) is driven and the "
     "model hard-wires scope_id = None in address records (what _dns_addresses builds today); registered infos always have a server "
-    "(set_server_if_missing) as _add asserts -- an update with a server-less ServiceInfo is driven on the simulated host only (finding D26); "
+    "(set_server_if_missing) as _add asserts -- update and unregister with a server-less ServiceInfo are driven on the simulated host only (D26, repaired); "
     "queries are parsed with and without a scope id (IPv4 / IPv6 socket) and simulated hosts have one IPv4 or one IPv6 socket, never both",
     "wire order of answers (sorted by name) and of additionals (set iteration order) is not compared; sets are compared as sets",
     "the pending-reply layer of the Lean model (Zc.RHost: replies computed but not yet transmitted, C03_transmitted_current_*) is an abstraction of the "
